@@ -14,7 +14,8 @@ configuration of
       site perturbed at a time, plus the joint schedules "every site reversed / rotated /
       interleaved",
   (c) execution mode isolated (each job in a fresh fork) for the default and the reversed
-      schedule (shared mode is what (a)/(b) use; the pickle boundary is always on),
+      schedule (shared mode is what (a)/(b) use; the pickle boundary is always on);
+      thorough tier only, on the specs flagged ``isolated`` (a run costs ~100 CPU-s),
   (d) PYTHONHASHSEED in {0,1,2,3,4242}: serial mapper in a separate interpreter,
   (e) cache history: fresh cache_dir, cold -> warm -> warm in one interpreter and warm
       again in a second interpreter (whether ``_make_pmappings`` really ran is observed),
@@ -31,8 +32,42 @@ completion order at the biggest call site was forced with engineered sleeps
 schedule and with the baseline.  The virtual-vs-baseline comparisons are counted in
 coverage["virtual_configs_compared"].
 
-Mutation self-test: see the end of this docstring (filled in by the self-test runs).
-MUTATION-RESULTS-PLACEHOLDER
+FINDING on the unchanged tree (2026-09-22): family
+``schedule/make_pmappings_from_templates/tie-structure``.  Spec MM1-422/ELR (matmul 4x2x2,
+H2 with a 96-bit Buf, ENERGY|LATENCY|RESOURCE_USAGE), n_jobs=4: whenever job 5 of the
+16-job "Generating pmappings" site (make_pmappings.py:398-410, return_as=
+"generator_unordered") is delivered before job 4 -- smallest schedule: ONE deviation, choices
+(0,0,0,0,1) = completion order [0,1,2,3,5,4,6,...]; also reversal, and the same order forced
+on the real loky backend -- the row (2224, 16, Buf 0.583) comes back as
+``[W0@Buf] for m [T1@Buf] for k [T0@Buf] for n`` instead of ``[W0@Buf] for m [T0@Buf] for n
+[T1@Buf] for k``: two templates produce equal-cost pmappings and the first ARRIVING one
+survives (pmapping_groups[...].extend() in arrival order, then first-of-duplicates Pareto).
+Objective vectors are unaffected.  Proposed patch (checked on a scratch copy: removes the
+violation): consume that site in job order, i.e. drop ``return_as="generator_unordered"``
+from the ``parallel(calls, pbar="Generating pmappings")`` call (list mode keeps the progress
+bar behaviour and re-orders by index).
+
+Mutation self-test (2026-09-22; ``VERIF_C20_SPECS=MM1-422/ELR VERIF_C20_NO_REAL=1 mc/mutant.sh
+<tag> C20 <file> <old> <new>``, quick tier, 42 configurations; the finding above fires in
+every run, a mutant counts as caught when a NEW family appears):
+  (1a) FFM/main.py eval_in_detail loop ``results[i] = result`` -> ``results.append(result)``:
+       NEUTRAL, legitimately: the rows come back in completion order but every row is
+       self-contained (mapping and costs travel together) and row order is not part of the
+       property, so the sorted canonical front is unchanged.  No new family.
+  (1b) same line -> ``results[0] = result`` (only the last ARRIVING row survives): CAUGHT by
+       the schedule dimension, family schedule/eval_mapping/objectives (19 of the 23
+       non-default orders of the 4-job eval site; + joint orders).
+  (2)  _make_pmappings/make_pmappings.py ``pmapping_groups[einsum_name].extend(new_pmapping_groups)``
+       -> only while fewer than 6 groups have arrived (late arrivals dropped): CAUGHT by the
+       schedule dimension, family schedule/make_pmappings_from_templates/objectives (8: all
+       named orders at the site and all joint orders); n_jobs / hash seed / cache do not see it.
+  (3a) make_storages.py ``powerset(sorted(may_keep, key=str))`` -> ``powerset(set(may_keep))`` and
+  (3b) util/_frozenset.py ``oset.__iter__`` iterating like a plain set: both NEUTRAL on this
+       spec (no new family under 5 hash seeds): every consumer downstream sorts again.
+  (3c) make_pmappings.py job submission order made hash dependent (``for job in
+       sorted(job_list.split(), key=lambda sj: hash(<template string>))``): CAUGHT by the
+       hash-seed dimension only, family hashseed/tie-structure (one of the four non-zero
+       seeds flips the tie); the schedule dimension cannot see it (same process, same seed).
 """
 
 from __future__ import annotations
@@ -90,20 +125,20 @@ JOINT = ("reversal", "rot+1", "rot-1", "interleave")
 SPECS = {
     "MM1-422/ELR": dict(wl=("MM1", (4, 2, 2)), h2=dict(size=96), metrics="ELR",
                         policy=(5, 12, 54), quick_policy=(5, 0, 12), isolated=True, real=True,
-                        tiers=("quick", "thorough")),
+                        tiers=("quick", "thorough")),  # isolated: thorough only (see configs_for)
     "MV2-222/bufY/ELR": dict(wl=("MV2", (2, 2, 2)), h2=dict(size=24, buf_may_keep="Y"), metrics="ELR",
-                             policy=(5, 12, 54), isolated=False, real=True, tiers=("quick", "thorough")),
+                             policy=(5, 12, 54), isolated=True, real=True, tiers=("quick", "thorough")),
     "MV2-222/ELR": dict(wl=("MV2", (2, 2, 2)), h2=dict(size=24), metrics="ELR",
-                        policy=(5, 12, 54), quick_policy=(0, 0, 0), isolated=False, real=False,
+                        policy=(5, 6, 12), quick_policy=(0, 0, 0), isolated=False, real=False,
                         tiers=("quick", "thorough")),
     "MM1-422/thr/EL": dict(wl=("MM1", (4, 2, 2)), h2=dict(size=96, main_thr=8, buf_thr=16), metrics="EL",
                            policy=(5, 12, 54), isolated=False, real=True, tiers=("thorough",)),
     "MV2-222/bufYZ/ELR": dict(wl=("MV2", (2, 2, 2)), h2=dict(size=24, buf_may_keep="Y | Z"), metrics="ELR",
-                              policy=(5, 12, 54), isolated=True, real=True, tiers=("thorough",)),
+                              policy=(5, 6, 12), isolated=False, real=True, tiers=("thorough",)),
     "MM2-2222/bufT1/ELR": dict(wl=("MM2", (2, 2, 2, 2)), h2=dict(size=64, buf_may_keep="T1"), metrics="ELR",
-                               policy=(5, 12, 54), isolated=True, real=True, tiers=("thorough",)),
+                               policy=(4, 6, 12), isolated=False, real=True, tiers=("thorough",)),
     "MM2-2222/EL": dict(wl=("MM2", (2, 2, 2, 2)), h2=dict(size=64), metrics="EL",
-                        policy=(5, 0, 14), isolated=False, real=True, tiers=("thorough",)),
+                        policy=(0, 0, 0), isolated=False, real=False, tiers=("thorough",)),
     "MV3-2222/ELR": dict(wl=("MV3", (2, 2, 2, 2)), h2=dict(size=24, buf_may_keep="Y | Z"), metrics="ELR",
                          policy=(0, 0, 0), isolated=False, real=False, tiers=("thorough",)),
     "FAN3-22222/EL": dict(wl=("FAN3", (2, 2, 2, 2, 2)), h2=dict(size=64, buf_may_keep="T1"), metrics="EL",
@@ -349,7 +384,7 @@ def configs_for(name, quick):
     policy = d.get("quick_policy", d["policy"]) if quick else d["policy"]
     out = [("cache",)]
     out += [("hashseed", s) for s in HASHSEEDS]
-    if d["isolated"]:
+    if d["isolated"] and not quick:  # ~100 CPU-s per run (jobs in fresh forks run ~100x slower): thorough only
         out += [("isolated", "default"), ("isolated", "reversal")]
     out += [("njobs", n) for n in N_JOBS]
     out += [("joint", j) for j in JOINT]
